@@ -246,3 +246,20 @@ prop("C08",
      rule=("cases are (frame type, interpolator, ratio sequence, source length, constructor); non-trivial = every case except the doc-tests' ratio 0.5 / 2 over 4 frames; "
            "distinct by hash of the case; evaluations = output frames checked"),
      stages=[{"name": "main", "build": "fast", "bin": "c08"}])
+
+prop("C16",
+     technique="runtime monitoring: each stock node driven through Processor::process behind prepared Feed nodes for consecutive calls, outputs compared with per-node oracles (sample-wise sums, copies, model delay lines, index-valued signal, inner graph processed directly); wrappers run side by side; Miri (Tree Borrows) and ASan stages",
+     level_text=("Sum and SumBuffers for every input count 0..=5 and buffers-per-node 0..=4 (all pairs for <= 2 inputs, representative sets beyond) with integer-valued (exact) "
+                 "and real-valued (tolerance) contents and garbage-prefilled outputs; Pass with 0/1 input and every buffer-count combination; Delay with ring lengths "
+                 "{1, 63, 64, 65, 200, mixed per channel} over 5 consecutive calls against a per-channel model delay line; signal nodes of 1/2/3/8 channels into 0..=9 "
+                 "buffers (registry Signal trait); nested GraphNode vs processing the same inner graph directly; &mut / Box / Box<dyn> / BoxedNode / BoxedNodeSend / nested "
+                 "BoxedNode / Box<dyn FnMut> / Box<dyn Fn> / fn pointer bit-identical to the bare node. 3 (quick) / 40 (thorough) random contents per configuration. "
+                 "Exploration: buffer contents and call counts are unbounded."),
+     level_note="trusted: f64 reference sums; dasp_graph resolves dasp_slice/dasp_ring_buffer/dasp_signal from the registry (0.11.0), so this check is sensitive to changes under dasp_graph/ only, which is where the property is anchored",
+     rule=("cases are (node kind, per-input buffer counts, output buffer count, ring lengths, content seed); configurations enumerated, contents random; non-trivial = all "
+           "but the test-suite's 2-input/1-buffer Sum; distinct by hash of the configuration; evaluations = output samples checked"),
+     stages=[
+         {"name": "main", "build": "fast", "bin": "c16"},
+         {"name": "miri", "build": "miri-tb", "bin": "c16", "shards": {"quick": 8, "thorough": 16}, "timeout": {"quick": 1500, "thorough": 7200}},
+         {"name": "asan", "build": "asan", "bin": "c16"},
+     ])
